@@ -125,6 +125,25 @@ def body_parse_eager(op, lexer, parser):
     return canon_ast(node), node
 
 
+def _lazy2(text, other, lexer, parser):
+    """Two token streams requested from one lexer up front, then parsed one after the
+    other (a caller that prepares a batch).  Not the same as consuming them alternately,
+    which nothing promises."""
+    g1 = lexer.tokenize(text)
+    g2 = lexer.tokenize(other)
+    out = []
+    for g in (g1, g2):
+        try:
+            out.append(canon_ast(parser.parse(g)))
+        except Exception as e:
+            out.append(canon_exc(e))
+    return ("ok", tuple(out))
+
+
+def body_parse_lazy2(op, lexer, parser):
+    return _lazy2(op["text"], op["other"], lexer, parser), None
+
+
 def body_tokenize_all(op, lexer, parser):
     return ("ok", tuple(canon_token(t) for t in lexer.tokenize(op["text"]))), None
 
@@ -161,6 +180,8 @@ def run_body(op, lexer, parser, keep):
         return body_parse(op, lexer, parser)
     if k == "parse_eager":
         return body_parse_eager(op, lexer, parser)
+    if k == "parse_lazy2":
+        return body_parse_lazy2(op, lexer, parser)
     if k == "tokenize_all":
         return body_tokenize_all(op, lexer, parser)
     if k == "tokenize_partial":
@@ -184,6 +205,8 @@ def op_request(op):
         return ("parse", op["text"])
     if k == "parse_eager":
         return ("parse_eager", op["text"])
+    if k == "parse_lazy2":
+        return ("parse_lazy2", op["text"], op["other"])
     if k == "tokenize_all":
         return ("tokens", op["text"])
     if k == "tokenize_partial":
@@ -201,6 +224,10 @@ def reference(req):
     try:
         if kind == "parse":
             return canon_ast(g.ODataParser().parse(g.ODataLexer().tokenize(req[1])))
+        if kind == "parse_lazy2":
+            # the property's own right-hand side, per string: a fresh lexer and parser
+            # each - not the two-streams procedure itself
+            return ("ok", (reference(("parse", req[1])), reference(("parse", req[2]))))
         if kind == "parse_eager":
             toks = list(g.ODataLexer().tokenize(req[1]))
             return canon_ast(g.ODataParser().parse(iter(toks)))
@@ -645,7 +672,7 @@ class Engine:
                 elif last[1] == "rewriter-abort":
                     st.probes["rewriter_aborted_then_instances_reused"] += 1
         else:
-            lexer = g.ODataLexer() if kind in ("parse", "parse_eager", "tokenize_all",
+            lexer = g.ODataLexer() if kind in ("parse", "parse_eager", "parse_lazy2", "tokenize_all",
                                                "tokenize_partial", "rewriter") else None
         if pj >= 0:
             st.par_holder[pj] = cid
@@ -656,7 +683,8 @@ class Engine:
             if last is not None and last[1] == "abort" and last[0] != cid:
                 st.probes["instance_handover_after_abort"] += 1
         else:
-            parser = g.ODataParser() if kind in ("parse", "parse_eager", "rewriter") else None
+            parser = g.ODataParser() if kind in ("parse", "parse_eager", "parse_lazy2",
+                                                 "rewriter") else None
 
         dry_n, _ = self.dry.get(op, self.opcode)
         keep = []
@@ -934,8 +962,10 @@ def gen_plan(seed, run, pool, dry, shorthand=False, max_clients=4, max_ops=5):
                 op["kind"] = rng.choice(["sa_core", "sa_orm", "django"])
             elif r < 0.66:
                 op["kind"] = "parse"
-            elif r < 0.72:
+            elif r < 0.695:
                 op["kind"] = "parse_eager"
+            elif r < 0.72:
+                op["kind"] = "parse_lazy2"
             elif r < 0.80:
                 op["kind"] = "tokenize_partial"
             elif r < 0.85:
@@ -960,7 +990,10 @@ def gen_plan(seed, run, pool, dry, shorthand=False, max_clients=4, max_ops=5):
                 op["k"] = rng.randint(1, 6)
             if op["kind"] == "parse_eager" and rng.random() < 0.7:
                 op["other"] = rng.choice(pool["valid"] + pool["bad"])
-            if op["kind"] in ("parse", "parse_eager", "tokenize_partial", "tokenize_all", "rewriter"):
+            if op["kind"] == "parse_lazy2":
+                op["other"] = rng.choice(pool["valid"] + pool["bad"])
+            if op["kind"] in ("parse", "parse_eager", "parse_lazy2", "tokenize_partial",
+                              "tokenize_all", "rewriter"):
                 op["lexer"] = rng.randrange(nl) if rng.random() < 0.85 else -1
                 op["parser"] = rng.randrange(np_) if rng.random() < 0.8 else -1
             op["linger"] = rng.random() < 0.45
@@ -1371,7 +1404,7 @@ TIME_UNIT = ("traced events (call/line/return/exception, plus opcode in ~12% of 
              "are the only time there is")
 EVIDENCE_RULE = (
     "A case is one simulated run: a seeded plan of 1-4 caller threads x 1-5 ops (parse / "
-    "decoupled tokenize-then-parse / partial or full tokenize / AliasRewriter with caller "
+    "decoupled tokenize-then-parse / two streams requested up front then parsed in turn / partial or full tokenize / AliasRewriter with caller "
     "instances / shorthand calls; 22% of texts repeat or nearly repeat an earlier one) "
     "routed over a pool of 1-3 shared ODataLexer and 1-3 shared ODataParser instances, "
     "with planned pre-emptions and planned garbage-collector passes at numbered traced "
